@@ -285,7 +285,7 @@ def gen_ctx(rng, max_tensors=4, tuple_p=0.2, ret_p=0.3, provider_p=0.3, libs=(0,
         slots = []
         for _ in range(k):
             if rng.random() < 0.2:
-                slots.append(Slot(None, None, False, rng.choice([("X",), ("N",), ("T", dt(0, "float32"), (1, 2))])))
+                slots.append(Slot(None, None, False, rng.choice([("X",), ("N",), ("T", dt(0, "float32"), (1, 2)), ("XT",), ("XA",), ("XE",)])))
             else:
                 s, cn = mk_slot()
                 slots.append(s)
